@@ -27,6 +27,7 @@ From Low Require Import Lib.MachInt Lib.BitSeq Model.SectionWriter Spec.SectionW
   Model.MemFile Model.SectionReader Spec.SectionReaderSpec Model.SectionPair Spec.SectionPairSpec
   Proofs.SectionWriterProofs Proofs.SectionWriterCalls Proofs.MemFileProofs Proofs.SectionIOProofs
   Proofs.SectionStreamProofs Proofs.SectionCountProofs Proofs.SectionPairProofs.
+From Low Require Import Model.SectionNest Spec.SectionNestSpec Proofs.SectionNestProofs.
 From Low Require Import Lib.Bytes Model.Pbcmpl Spec.PbcmplSpec Model.PbcmplFile.
 From Low Require Import Spec.PbcmplFileSpec.
 From Low Require Proofs.PbcmplStream Proofs.PbcmplFileProofs Proofs.PbcmplFileRoundTrip Proofs.PbcmplFileFrames
@@ -459,6 +460,59 @@ Example C18_two_sections_nonvacuous :
   file_after [9;9;9;9;9;9] outs = [9;1;2;4;6;9] /\
   file_after [9;9;9;9;9;9] (outs_of_first wcs outs) = [9;1;2;9;9;9].
 Proof. vm_compute. repeat split; reflexivity. Qed.
+
+(** * Widening: sections of sections -- NewSectionWriter(inner, off, n) / AtToWriter(inner, off) where
+    [inner] is itself a SectionWriter.  [Model/SectionNest.v]: the outer writer's underlying WriteAt is the
+    inner writer's WriteAt (section-relative offset), down to the mock; a call is addressed to a level
+    (0 = innermost).  [Spec/SectionNestSpec.v]: a stack of windows (o, n) with cursors; a write is cut by
+    every window on its way down. *)
+
+(** the stacked int64 writers refine the stack of cursor/length windows: every return value and
+    every (offset, bytes) that reaches the underlying writer, for every interleaving of calls on any
+    level, any depth, any faulty writer *)
+Theorem C18_nested_refinement : forall ws sc lcs,
+  Forall (fun w => 0 <= fst w /\ 0 <= snd w /\ fst w + snd w <= 2^63 - 1) ws ->
+  Forall (fun r => 0 <= fst r) sc -> Forall (fun lc => call_ok (snd lc)) lcs ->
+  map (fun r => (rets r, ucalls r)) (runN (map (fun w => NewSectionWriter (fst w) (snd w)) ws) sc lcs)
+  = spec_nested ws sc (map to_lacall lcs).
+Proof. exact nested_refines. Qed.
+Print Assumptions C18_nested_refinement.
+
+(** a WriteAt through a stack of int64 section writers IS the write through the stack of windows *)
+Theorem C18_nested_writeat : forall ss ws,
+  Forall2 (fun s w => base s = fst w /\ limit s = fst w + snd w) ss ws ->
+  Forall (fun w => 0 <= fst w /\ 0 <= snd w /\ fst w + snd w <= 2^63 - 1) ws ->
+  forall sc p o, - 2^63 <= o < 2^63 -> wat ss sc p o = aw ws sc p o.
+Proof. exact wat_aw. Qed.
+Print Assumptions C18_nested_writeat.
+
+(** and every call (x, bs) it makes to the underlying writer lands inside EVERY window of the stack
+    ([inside ws a l]: l bytes at relative a lie in the first window, and -- at o + a -- in the one
+    below, and so on), at x = a + the sum of the window offsets, carrying a prefix of the buffer *)
+Theorem C18_nested_containment : forall ws sc p a x bs,
+  In (x, bs) (snd (aw ws sc p a)) ->
+  x = sumo ws + a /\ inside ws a (zlen bs) /\ bs = firstn (length bs) p.
+Proof. exact aw_contained. Qed.
+Print Assumptions C18_nested_containment.
+
+(** two levels, absolute file positions: inside the inner section AND inside the outer one -- an
+    outer section that extends past the inner end cannot write past it *)
+Theorem C18_nested_intersection : forall o1 n1 o2 n2 sc p a x bs,
+  In (x, bs) (snd (aw [(o2, n2); (o1, n1)] sc p a)) ->
+  o1 + o2 <= x /\ x + zlen bs <= o1 + o2 + n2 /\ o1 <= x /\ x + zlen bs <= o1 + n1.
+Proof. exact aw2_intersection. Qed.
+Print Assumptions C18_nested_intersection.
+
+(** non-vacuity: inner (10, 4), outer (1, 8) straddling the inner end: an outer Write of 8 bytes is cut
+    to the 3 that fit the inner section and returns (3, ErrShortWrite); the next outer Write is refused
+    by the inner section (0, ErrShortWrite) although the outer cursor is inside the outer section *)
+Example C18_nested_nonvacuous :
+  map (fun r => (rets r, ucalls r))
+    (runN [NewSectionWriter 10 4; NewSectionWriter 1 8] [] [(1%nat, CWrite [1;2;3;4;5;6;7;8]); (1%nat, CWrite [9]); (0%nat, CWrite [7])])
+  = [([3; 1], [(11, [1;2;3])]); ([0; 1], []); ([1; 0], [(10, [7])])] /\
+  spec_nested [(10, 4); (1, 8)] [] [(1%nat, AWrite [1;2;3;4;5;6;7;8]); (1%nat, AWrite [9]); (0%nat, AWrite [7])]
+  = [([3; 1], [(11, [1;2;3])]); ([0; 1], []); ([1; 0], [(10, [7])])].
+Proof. split; vm_compute; reflexivity. Qed.
 
 (** * Widening across packages: pbcmpl frames in one file through iohelper
     (pbcmpl.Marshal(iohelper.AtToWriter(f, off), msg), pbcmpl.Unmarshal(iohelper.AtToReader(f, off), msg):
